@@ -148,7 +148,30 @@ AfterTamperProof == /\ pc = "tproof"
                        Step(BlindProofVerify(PH, 1, p.s, p.hdr, p.ph, Len(p.msgs), VM(p), VCM(p), VD(p), VCD(p)))
                     /\ pc' = "done"
 
+\* ---- blind proofs assembled from public data (the attacker has no signature at all) ------------
+PtA == {"id", "zBv", "other"}
+PtB == {"id", "xD", "other"}
+PtD == {"id", "Bv", "yBv"}
+\* targets: (L, disclosed pairs over the slots 0 .. L-1 | L (blind factor) | L+1 ..), U hidden
+BTargets == { [L |-> 0, dp |-> << >>, U |-> 1], [L |-> 1, dp |-> << << 0, MA >> >>, U |-> 1],
+              [L |-> 1, dp |-> << << 0, MA >>, << 2, MB >> >>, U |-> 1], [L |-> 0, dp |-> << << 1, MB >> >>, U |-> 2] }
+DoCraftB == /\ pc = "commit"
+            /\ \E s \in Suites, t \in BTargets, a \in PtA, b \in PtB, d \in PtD :
+                  Step(Craft(1, s, "blind", << 1 >>, << 2 >>, t.dp, t.U, t.L, [A |-> a, B |-> b, D |-> d]))
+            /\ pc' = "craftedB"
+AfterCraftB ==
+  /\ pc = "craftedB"
+  /\ LET c  == objs[NObj]
+         sg == {j \in 1 .. Len(c.dp) : c.dp[j][1] < c.L}
+         cm == {j \in 1 .. Len(c.dp) : c.dp[j][1] > c.L}
+         sq(S) == SortSet(S)
+     IN  Step(BlindProofVerify(NObj, 1, c.s, c.hdr, c.ph, c.L,
+                               [j \in 1 .. Cardinality(sg) |-> c.dp[sq(sg)[j]][2]], [j \in 1 .. Cardinality(cm) |-> c.dp[sq(cm)[j]][2]],
+                               [j \in 1 .. Cardinality(sg) |-> c.dp[sq(sg)[j]][1]], [j \in 1 .. Cardinality(cm) |-> c.dp[sq(cm)[j]][1] - c.L - 1]))
+  /\ pc' = "done"
+
 Next == \/ Setup \/ DoCommit \/ DoSign \/ RT \/ DoGen \/ RTP
+        \/ (Mode \in {"adv", "all"} /\ (DoCraftB \/ AfterCraftB))
         \/ (Mode \in {"honest", "all"} /\ (HonestVerify \/ HonestProof))
         \/ (Mode \in {"adv", "all"} /\ (EditVerify \/ BadCommit \/ SignBad \/ SignCross \/ EditProof \/ TamperProof \/ AfterTamperProof))
 
